@@ -9,11 +9,14 @@ import (
 	"os"
 	"os/exec"
 	"sort"
+	"testing"
 	"time"
 
 	"github.com/MixinNetwork/mixin/common"
 	"github.com/MixinNetwork/mixin/crypto"
+	"github.com/MixinNetwork/mixin/kernel/internal/clock"
 	"github.com/MixinNetwork/mixin/verifgen"
+	"github.com/MixinNetwork/mixin/verifkit"
 )
 
 // atHour moves the timeline cursor forward to the given hour (relative to the
@@ -308,4 +311,76 @@ func (f *verifFeed) buildAccept(cand *verifgen.Candidate) (*common.Snapshot, *co
 	s := &common.Snapshot{Version: common.SnapshotVersionCommonEncoding, NodeId: id, RoundNumber: 0, Timestamp: ts, Transactions: []crypto.Hash{tx.PayloadHash()}}
 	s.Hash = s.PayloadHash()
 	return s, tx, nil
+}
+
+// verifAheadOfClock: a membership record whose snapshot is stamped a little ahead of this node's clock (the proposer's
+// clock runs ahead) is part of the history as soon as it is finalized: the views the running node gives for instants
+// after it must be the ones a node set up later from the same records gives.
+func verifAheadOfClock(t *testing.T, r *verifkit.Run, label, sig string, viewOf func(f *verifFeed, q uint64) string) {
+	rng := r.Fork(label+"-clock", 0)
+	f := verifNewFeed(t, fmt.Sprintf("%s-%d", label, r.Seed), 9, rng, t.TempDir(), nil)
+	defer f.stop()
+	defer clock.Reset()
+	w := verifgen.NewWallet(f.net.Label, rng, &f.net.Custodian, 3)
+	view := func(q uint64) string { return viewOf(f, q) }
+	rounds := r.N(2, 6)
+	for i := 0; i < rounds; i++ {
+		for k := 0; k < 3; k++ {
+			dep, specs := w.Deposit(verifgen.Assets()[1+rng.Intn(3)], big.NewInt(int64(1+rng.Intn(1e6))))
+			if _, d := f.feedBatch(f.net.NodeIds[rng.Intn(len(f.net.NodeIds))], []*common.VersionedTransaction{dep}, f.tick(uint64(2*time.Second))); d.Finalized {
+				w.Applied(dep, specs)
+			}
+		}
+		ts := f.atHour(13+rng.Intn(6), 50*time.Minute)
+		chainId, tx, err := f.buildNodeRemove(ts)
+		if err != nil {
+			r.Count("clock_part_removal_not_buildable", 1)
+			t.Logf("removal: %v", err)
+			break
+		}
+		s, err := f.nextSnapshot(chainId, []crypto.Hash{tx.PayloadHash()}, ts)
+		if err != nil {
+			break
+		}
+		if _, err := f.sign(s, 0); err != nil {
+			break
+		}
+		// this node's clock is 1..5 s behind the snapshot's timestamp when the snapshot arrives
+		behind := time.Duration(1+rng.Intn(5)) * time.Second
+		clock.Reset()
+		clock.MockDiff(time.Unix(0, int64(ts)).Add(-behind).Sub(clock.Now()))
+		d := f.deliver(s, []*common.VersionedTransaction{tx})
+		if !d.Finalized {
+			d = f.deliver(s, []*common.VersionedTransaction{tx})
+		}
+		if !d.Finalized {
+			r.Count("clock_part_removal_not_finalized", 1)
+			t.Logf("removal not finalized: %v %v", d.Err, d.PanicVal)
+			clock.Reset()
+			continue
+		}
+		qs := []uint64{ts - 1, ts, ts + 1, ts + uint64(time.Second), ts + uint64(time.Hour), ts + uint64(13*time.Hour)}
+		before := map[uint64]string{}
+		for _, q := range qs {
+			before[q] = view(q)
+		}
+		// the same records read by a node set up afterwards, with the clock long past the record
+		clock.Reset()
+		if err := f.restart(); err != nil {
+			t.Fatalf("restart: %v", err)
+		}
+		for _, q := range qs {
+			r.Eval()
+			r.Nontrivial(fmt.Sprintf("ahead|%d|%d", i, q-ts+1))
+			if a := view(q); a != before[q] {
+				r.Violation(sig, fmt.Sprintf("the running node's views for %d (record at %d, local clock %s behind when it was finalized) differ from the views of a node set up later from the same records", q, ts, behind),
+					map[string]any{"query": q, "record_time": ts, "clock_behind": behind.String(), "running_node": before[q], "node_set_up_later": a})
+				break
+			}
+		}
+		r.Count("records_finalized_ahead_of_the_local_clock", 1)
+	}
+	if r.Counter("records_finalized_ahead_of_the_local_clock") < 1 {
+		r.Inconclusive("no membership record could be finalized ahead of the local clock")
+	}
 }
